@@ -46,6 +46,7 @@ def c6(ctx):
 
 def c7(ctx):
     entry.funnel(ctx)
+    entry.filename_entry(ctx)
 
 
 def sweep(ctx):
@@ -67,7 +68,7 @@ CLAUSES = [
     ("C03.4", "strict reaches the tokenizer from every entry point (R-FWD)", c4),
     ("C03.5", "peeked stream is rewound (R-REWIND)", c5),
     ("C03.6", "format dispatch table", c6),
-    ("C03.7", "one funnel to the tokenizer", c7),
+    ("C03.7", "one funnel to the tokenizer; a file opened by name reaches load() as the file object (its name decides the format)", c7),
     ("C03.sweep", "package-wide option forwarding (thorough)", sweep),
     ("C03.8", "no process-wide state behind the loaders (module tables such as ENCODINGS are never changed at run time) (R-STATE)", c8),
     ("C03.api", "public surface: signatures and defaults, constants, enumerations, blank templates, base classes as confirmed (R-API)", c_api),
